@@ -66,3 +66,16 @@ impl LuaIndex for LuaSignatureIndex {
         self.in_file_signatures.clear();
     }
 }
+
+#[cfg(feature = "verif-hooks")]
+impl LuaSignatureIndex {
+    /// verif hook H1: entry counts of every map of this index
+    pub fn verif_sizes(&self, out: &mut Vec<(String, usize)>) {
+        out.push(("signature.signatures".into(), self.signatures.len()));
+        out.push(("signature.in_file_signatures".into(), self.in_file_signatures.len()));
+        out.push((
+            "signature.in_file_signatures.sum".into(),
+            self.in_file_signatures.values().map(|v| v.len()).sum(),
+        ));
+    }
+}
